@@ -283,9 +283,12 @@ impl Check {
         let t_start = Instant::now();
 
         // work items: all enabled prefixes of length min(2, depth)
-        let split = depth.min(2);
+        // work items: enabled prefixes, split deeper until there are enough of them to balance
         let mut items: Vec<Vec<usize>> = vec![vec![]];
-        for _ in 0..split {
+        for level in 0..depth {
+            if level >= 2 && items.len() >= 32 * self.threads {
+                break;
+            }
             let mut next = Vec::new();
             for p in &items {
                 for e in 0..n {
